@@ -88,6 +88,13 @@ def run_case(case, scratch_root):
     gen.write_project(root, tasks)
     recs = []
     for inv in case["history"]:
+        if inv.get("retype"):
+            # the COND files are edited between invocations: some tasks change their type (same identifier)
+            for t in tasks:
+                if t["id"] in inv["retype"]:
+                    t["kind"] = inv["retype"][t["id"]]
+            gen.write_project(root, tasks)
+            tb = {t["id"]: t for t in tasks}
         rows_before = read_rows(root)
         argv = ["run", inv["target"]]
         if inv.get("jobs") is not None:
@@ -102,7 +109,7 @@ def run_case(case, scratch_root):
         kind, res = common.run_forked(schedsim.run_invocation, spec, inv.get("timeout", 90))
         executed, cached = plan_model(tb, inv["target"], rows_before, inv.get("again", False))
         failed, skipped = outcome_model(tb, executed, inv.get("script", {}))
-        recs.append({"inv": inv, "argv": argv, "kind": kind, "res": res if kind == "ok" else None, "err": None if kind == "ok" else res,
+        recs.append({"inv": inv, "argv": argv, "kind": kind, "res": res if kind == "ok" else None, "err": None if kind == "ok" else res, "tb": {k0: dict(v0) for k0, v0 in tb.items()},
                      "rows_before": rows_before, "rows_after": read_rows(root) if kind == "ok" else None,
                      "executed": executed, "cached": cached, "failed": sorted(failed), "skipped": sorted(skipped)})
     return tb, recs
@@ -530,7 +537,7 @@ def eval_case(arg):
         sigparts = []
         for rec in recs:
             for pr in props:
-                ORACLES[pr](case, tb, rec, out)
+                ORACLES[pr](case, rec.get("tb", tb), rec, out)
             if rec["res"]:
                 order = [(k, d.get("task")) for t, k, d in rec["res"]["log"] if k in ("spawn", "exit", "reap")]
                 names = {}
@@ -591,6 +598,11 @@ def mk_history(rng, tasks, target, focus, strategies):
                 inv["script"][x] = dict(rng.choice(FAULTS))
             if focus == "faults" and rng.random() < 0.35:
                 inv["stop_early"] = True
+        if focus == "cache" and k > 0 and rng.random() < 0.3:
+            # a task that used to be an experiment (and may have recorded versions) is now a run_command, or vice versa
+            cand = [t for t in tasks if t["kind"] in PROC]
+            if cand:
+                inv["retype"] = {t["id"]: ("run_command" if t["kind"] == "run_experiment" else "run_experiment") for t in rng.sample(cand, min(len(cand), rng.randint(1, 2)))}
         hist.append(inv)
     return hist
 
